@@ -4,6 +4,7 @@
 use super::*;
 use crate::error::timezone::TimeZoneError;
 use crate::error::TzError;
+pub(crate) use super::rule::verif_kani::raw_alt;
 
 // ------------------------------------------------------------------ shared generators (order of kani::any() calls is
 // part of the interface with lib/engb.py's concrete-playback decoder; keep it stable)
